@@ -102,6 +102,9 @@ def main(argv=None):
         a.tier, a.seed = rp.get("tier", a.tier), rp.get("seed", a.seed)
     else:
         plist = mod.shards(a.tier, a.seed)
+        amb = getattr(mod, "AMBIENT", None)
+        if amb and (a.tier == "thorough" or amb.get("quick")):
+            plist.append({"_ambient": amb})
     timeout = getattr(mod, "TIMEOUT", {}).get(a.tier, 3600)
     with tempfile.TemporaryDirectory(prefix=f"vfrun_{prop}_") as wd:
         if hasattr(mod, "prepare"):
